@@ -139,9 +139,85 @@ def l2_controller(run, rng, quick):
     return done
 
 
+def l2_chain_sweep_events(run, rng, quick):
+    """exact replay: the sequence of local Krylov propagations (which site / bond, sign and size of the local time step) of the
+    REAL chain projector-splitting schemes (_evolve_tdvp_ps, _evolve_tdvp_ps2) against the Lean traversal models of
+    Model/TreeSweep on the linear tree rooted at site 0 (first round = forward half sweep, second = its mirror image)."""
+    import sys
+    from renormalizer.model import Model, Op, basis as ba
+    from renormalizer.mps import Mps, Mpo
+    from renormalizer.utils import EvolveConfig, EvolveMethod
+    import renormalizer.mps.mps as mpsmod
+    rec = []
+    orig = mpsmod.expm_krylov
+
+    def wrapped(afunc, dt, vstart, *a, **k):
+        loc = sys._getframe(1).f_locals
+        name = sys._getframe(1).f_code.co_name
+        rec.append((name, loc.get("imps"), loc.get("cidx0"), loc.get("cidx1"), loc.get("cidx2"),
+                    bool(loc["mps"].to_right) if "mps" in loc else None, complex(dt), int(np.size(vstart))))
+        return orig(afunc, dt, vstart, *a, **k)
+    mpsmod.expm_krylov = wrapped
+    reqs, meta = [], []
+    try:
+        for _ in range(6 if quick else 60):
+            n = int(rng.integers(2, 7))
+            basis = [ba.BasisHalfSpin(i) for i in range(n)]
+            terms = [Op("sigma_x sigma_x", [i, i + 1], float(rng.uniform(0.3, 1.0))) for i in range(n - 1)] + \
+                    [Op("sigma_z", i, float(rng.uniform(-1, 1))) for i in range(n)]
+            model = Model(basis, terms)
+            mpo = Mpo(model)
+            for method, kinds in ((EvolveMethod.tdvp_ps, ("ps1f", "ps1b")), (EvolveMethod.tdvp_ps2, ("ps2f", "ps2b"))):
+                np.random.seed(int(rng.integers(2 ** 31)))
+                mps = Mps.random(model, 0, 3, percent=1.0)
+                mps.evolve_config = EvolveConfig(method)
+                tau = 0.02 if rng.random() < 0.5 else -0.03j
+                del rec[:]
+                try:
+                    mps.evolve(mpo, tau)
+                except Exception as e:  # noqa
+                    run.count("chain-sweep-raised:" + type(e).__name__)
+                    continue
+                events, steps = [], set()
+                for (fn, imps, c0, c1, c2, to_right, dt, size) in rec:
+                    ratio = dt / (-1j * tau)          # +1/2 forward local step, -1/2 backward local step
+                    steps.add(round(abs(ratio), 12))
+                    fwd = ratio.real > 0
+                    if fn == "_evolve_tdvp_ps":
+                        if fwd:
+                            events.append(f"k1:{imps}")
+                        else:     # bond between imps and its neighbour in sweep direction; named by its lower end (the child)
+                            events.append(f"k0:{imps + 1 if to_right else imps}")
+                    elif fn == "_evolve_tdvp_ps2":
+                        events.append(f"two:{c1}" if fwd else f"one:{c2}")
+                    else:
+                        events.append("bad:" + fn)
+                run.count(f"chain-sweep:{method.name}:n={n}:{'imag' if np.iscomplex(tau) else 'real'}")
+                if steps != {0.5}:
+                    run.violation(f"corr:chain-sweep-local-time-step:{method.name}",
+                                  dict(correspondence="every local propagation of a half sweep runs over dt/2", nsite=n,
+                                       local_steps_over_dt=sorted(steps)), no_input=True)
+                half = len(events) // 2
+                adj = "|".join(str(i + 1) if i + 1 < n else "." for i in range(n))
+                for kind, ev in zip(kinds, (events[:half], events[half:])):
+                    reqs.append(f"{kind} 0 {adj}")
+                    meta.append((kind, ev, dict(nsite=n, method=method.name, all_events=events)))
+    finally:
+        mpsmod.expm_krylov = orig
+    replies = common.run_driver("RenoVerif/Driver/C12.lean", reqs) if reqs else []
+    for (kind, ev, info), req, rep in zip(meta, reqs, replies):
+        impl = ",".join(ev) if ev else "-"
+        run.sample(dict(request=req, model=rep, impl=impl), limit=2)
+        if rep != impl:
+            run.violation(f"corr:chain-sweep-events:{kind}",
+                          dict(correspondence="RenoVerif.TreeSweep traversal (linear tree) vs recorded local propagations of the real chain sweep",
+                               info=info, model=rep, impl=impl), no_input=True)
+    return len(reqs)
+
+
 if __name__ == "__main__":
     common.main_wrapper(lambda: generic_check.run_check(
-        "C09", "other", ["RenoVerif/Props/C09.lean"], [l2_rk_poly, l2_controller],
+        "C09", "other", ["RenoVerif/Props/C09.lean", "RenoVerif/Props/C12.lean"], [l2_rk_poly, l2_controller, l2_chain_sweep_events],
         ["error orders of TDVP/P&C schemes, Lanczos/RK45 local solvers, adaptive step-size termination are numerical (measured by slopes)",
          "projector-splitting norm/energy conservation is measured, its algebraic reason (unitary local steps + C04 pushes) is not assembled into one Lean theorem"],
         "ten tableaux x one fixed step of the real general RK scheme at full bond dimension vs the model polynomial",
